@@ -384,7 +384,7 @@ class World:
                 layer = type(lname, bases or (object,), d)
             else:
                 layer = (_FalsyInstanceLayer if lspec.get('falsy') else _InstanceLayer)(
-                    lname, bases, self.module_name)
+                    lspec.get('pyname', lname), bases, self.module_name)
                 for h in hooks:
                     run = self._hook(lname, h)
                     setattr(layer, h, (lambda run=run, n=lname: run(n)))
@@ -511,11 +511,9 @@ class World:
                      tok.encode('utf-8') + bytes.fromhex(w.get('rawhex', '')) +
                      (b'\n' if w.get('nl', True) else b''))
         else:
+            # no flush: a test does not flush its prints either, and a capture
+            # stream that holds text back must not be helped along
             stream.write(text)
-            try:
-                stream.flush()
-            except Exception:
-                pass
 
     def _actions(self, test, actions):
         tid = test._verif_id
